@@ -39,6 +39,8 @@ INCRATE_FILES = {
     "glyf_memory.rs": ("skrifa_in", "outline::glyf::memory::verif_harness"),
     "path.rs": ("skrifa_in", "outline::path::verif_harness"),
     "write_hook.rs": ("write_in", "write::verif_harness"),
+    "ivs_builder.rs": ("write_in", "tables::variations::ivs_builder::verif_harness"),
+    "loca.rs": ("write_in", "tables::loca::verif_harness"),
     "simple.rs": ("write_in", "tables::glyf::simple::verif_harness"),
     "cmap.rs": ("write_in", "tables::cmap::verif_harness"),
     "font_builder.rs": ("write_in", "font_builder::verif_harness"),
@@ -79,6 +81,13 @@ def _scan_file(path):
                         ann[k] = v or True
             j -= 1
         ann["submod"] = sub
+        k = i - 1
+        while k >= 0 and k > i - 8:
+            um = re.search(r"kani::unwind\((\d+)\)", lines[k])
+            if um:
+                ann["unwind"] = int(um.group(1))
+                break
+            k -= 1
         out.append((m.group(1), ann))
     return out
 
